@@ -101,18 +101,32 @@ pub fn depth_and_cell() -> BoxedStrategy<(u8, Cell)> {
 /// Lattice points: centre or a vertex of a cell of some depth, mapped to the sphere by the
 /// reference inverse projection and nudged by 0..2 ulps.
 fn lattice_pos() -> BoxedStrategy<Pos> {
-  (depth_and_cell(), 0usize..5, -2i32..=2, -2i32..=2, prop_oneof![4 => Just(0i32), 1 => -4i32..=4])
-    .prop_map(|((d, c), which, n1, n2, turns)| {
+  (depth_and_cell(), 0usize..8, -2i32..=2, -2i32..=2, prop_oneof![4 => Just(0i32), 1 => -4i32..=4], (0.0f64..1.0, 1.0f64..15.0, any::<bool>()))
+    .prop_map(|((d, c), which, n1, n2, turns, (t, u, outward))| {
       let n = 1i64 << d;
       let (xc, yc) = lat::cell_center(n, c);
+      let (xc, yc) = (xc as f64, yc as f64);
       let (x, y) = match which {
         0 => (xc, yc),
-        1 => (xc, yc - 1),
-        2 => (xc + 1, yc),
-        3 => (xc, yc + 1),
-        _ => (xc - 1, yc),
+        1 => (xc, yc - 1.0),
+        2 => (xc + 1.0, yc),
+        3 => (xc, yc + 1.0),
+        4 => (xc - 1.0, yc),
+        // a point of one of the four edges moved towards the centre (or away from it) by 10^-u of
+        // the way: every distance to a cell border between the ulp and the cell size
+        k => {
+          let (ex, ey) = match (k + (t * 1e6) as usize) % 4 {
+            0 => (xc + t, yc - 1.0 + t),
+            1 => (xc + 1.0 - t, yc + t),
+            2 => (xc - t, yc + 1.0 - t),
+            _ => (xc - 1.0 + t, yc - t),
+          };
+          let dd = (10.0f64).powf(-u) * if outward { -1.0 } else { 1.0 };
+          (ex + dd * (xc - ex), ey + dd * (yc - ey))
+        }
       };
-      let (lon, la) = unproj_ref(x as f64 / n as f64, y as f64 / n as f64);
+      let (n1, n2) = if which >= 5 { (0, 0) } else { (n1, n2) };
+      let (lon, la) = unproj_ref(x / n as f64, (y / n as f64).max(-2.0).min(2.0));
       // the same border point seen from another turn (negative longitudes included): the crate's
       // reduction of the longitude then goes through its other branch
       let lon = lon + turns as f64 * TWO_PI;
